@@ -14,7 +14,7 @@ type Job struct {
 	Property string `json:"property"`
 	Seed     uint64 `json:"seed"`
 	Thorough bool   `json:"thorough,omitempty"`
-	Case     *Case  `json:"case,omitempty"`
+	Case     json.RawMessage `json:"case,omitempty"`
 	EmitCase bool   `json:"emit_case,omitempty"`
 }
 
@@ -44,9 +44,36 @@ func TestWorker(t *testing.T) {
 	if err != nil {
 		t.Skip(err)
 	}
+	if job.Property == "C05" || job.Property == "C06" {
+		var cc *ClusterCase
+		if job.Mode == "replay" {
+			cc = &ClusterCase{}
+			if err := json.Unmarshal(job.Case, cc); err != nil {
+				t.Fatal(err)
+			}
+		} else {
+			cc = GenCluster(job.Property, job.Seed, Tier{Thorough: job.Thorough})
+		}
+		RunCluster(t, cc, func(res *Result) {
+			out, _ := json.Marshal(res)
+			fmt.Printf("RESULT %s\n", out)
+			if job.EmitCase || res.Outcome == "violation" {
+				x := *cc
+				x.Schedule = res.Schedule
+				cj, _ := json.Marshal(&x)
+				fmt.Printf("CASE %s\n", cj)
+			}
+			os.Stdout.Sync()
+			os.Exit(0)
+		})
+		return
+	}
 	var c *Case
 	if job.Mode == "replay" {
-		c = job.Case
+		c = &Case{}
+		if err := json.Unmarshal(job.Case, c); err != nil {
+			t.Fatal(err)
+		}
 	} else {
 		c = GenCase(job.Property, job.Seed, Tier{Thorough: job.Thorough})
 	}
